@@ -730,7 +730,7 @@ func rulePegReset(c *engine.Context) *report.Rule {
 
 // ruleConfig: R-CONFIG.
 func ruleConfig(c *engine.Context) *report.Rule {
-	r := report.NewRule("R-CONFIG", "configuration memory is only copied into the action state of the current Parse and never retained", 2)
+	r := report.NewRule("R-CONFIG", "configuration memory is only copied into the action state of the current Parse and never retained", 1)
 	p := c.P
 	a := regionsOf(c)
 	asIdx := actionStateIndex(p)
